@@ -31,6 +31,10 @@ add("C07", "runtime monitoring: sys.monitoring probes on every tableau primitive
     "Every call of every tableau primitive (nested calls included) is snapshotted at entry and checked at return: binary/symplectic/paired invariants and the exact stabilizer group the operation must produce (conjugation for gates, Aaronson-Gottesman post-condition for measurement, reset, insertion of |0>, removal / partial trace, tensor). Workload: all 11520 two-qubit tableaux x ~70 API calls (thorough; sampled in quick) and random histories up to n = 200 qubits, also through the Stabilizer / MixedStabilizer wrappers.",
     TRUST + "measure_x / measure_y are judged on their outcome only.", "DESIGN.md section 5, C07")
 
+add("C03", "runtime monitoring: boundary monitors on the height functions / emitter count and a sys.monitoring probe on rref, judged by an independent GF(2) entanglement-entropy oracle; solver outputs inspected",
+    "height_func_list / height_dict / height_max / determine_n_emitters are called on every generating set of every stabilizer state on <=2 (thorough <=3) qubits, on random states in three generating sets each up to 12 qubits and on graphs up to 40 vertices, and compared with rank_GF2(generators restricted to A) - |A| (itself checked against dense von Neumann entropies); every rref call is probed for state preservation and echelon shape; solver circuits are checked for n_emitters = max profile and one emission per photon.",
+    TRUST + "Known finding trs-isolated-vertex is reported, not hidden.", "DESIGN.md section 5, C03")
+
 NOT_YET = {
 }
 
